@@ -2,7 +2,7 @@
 grammar and a handful of inputs, for every composition of each input into fragments.
 
 handle(case) with case = {"spec", "kind": "str"|"bytes", "seed", "n_words", "max_len", "exhaust_len",
-                          "sample_comps", "words": [[units]] | None}
+                          "sample_comps", "words": [[units]] | None, "extra_words": [[units]] | None}
 returns {"words": [per-word record], "alts": linearisation | None, "patterns": n, ...}
 All comparisons that only involve the real code (final parse set of a composition vs the whole input,
 `can_continue` soundness) are made here so that only differences travel back; everything the Lean model is
@@ -126,7 +126,8 @@ class Oracle:
                             return f"part_prefix r{rid} {x}|{w[c:j]}"
                         if fz is not None and len(x) < fz and px is None:
                             return f"full_part r{rid} {x}|{w[c:j]}"
-                        if fx is not None and fx > 0 and fz != fx:
+                        # since 179bde08 a match of length 0 counts: every match achieved on non-empty input
+                        if fx is not None and len(x) > 0 and fz != fx:
                             return f"full_stable r{rid} {x}|{w[c:j]}"
                         if fz is not None and fz <= len(x) and fx != fz:
                             return f"full_local r{rid} {x}|{w[c:j]}"
@@ -346,23 +347,28 @@ def run_pieces(grammar, regexes, pieces, detail: bool) -> dict:
 def admitted_lengths(oracle: "Oracle", rid: int, wu: list[int], i: int, lens) -> set:
     """The match lengths `scan_regex` offers for regex `rid` starting at unit `i` when `wu` is fed in pieces of
     lengths `lens` — ONE length per scan, the one `re.match` prefers on the text available to that scan:
-    the first scan sees the rest of the piece that contains position i; while the text seen so far is a partial
-    match, an incomplete state is parked at the end of the piece and scanned again with the next piece added
-    (a length that does not get past the text already seen is dropped: `match_length <= prev_match_length`)."""
+    the first scan (a fresh state: any length counts, 0 included — 179bde08) sees the rest of the piece that
+    contains position i; a regex that starts exactly at a piece boundary is scanned for keeps with the next piece
+    (the scan of the exhausted piece happens on a column that is thrown away) — unless there is no next piece,
+    then that scan of the empty rest is the one that counts; while the text seen so far is a partial match, an
+    incomplete state is parked at the end of the piece and scanned again with the next piece added (for an
+    incomplete state a length that does not get past the text already seen is dropped:
+    `state.is_incomplete and match_length <= prev_match_length`)."""
     out: set = set()
+    n = len(wu)
     start, prev, first = 0, 0, True
     for ln in lens:
         end = start + ln
-        if end <= i:
+        if end < i or (end == i and i < n):
             start = end
             continue
         text = wu[i:end]
         full, part = oracle.ask(rid, text)
         w = (i - start) if first else 0
-        matched = full is not None and full > prev
+        matched = full is not None and (first or full > prev)
         if matched:
             out.add(full)
-        if part is None or (not matched and part + w < ln):
+        if part is None or (not matched and part + w < ln) or end == i:
             break
         prev, first, start = part, False, end
     return out
@@ -456,10 +462,7 @@ def linearize(grammar, regexes, limit: int = 150) -> Optional[list]:
 
     def exp(node, stack) -> list:
         if isinstance(node, TerminalNode):
-            t = term_json(node.symbol, regexes)
-            if t[0] == "lit" and not t[1]:
-                return [[]]
-            return [[t]]
+            return [[term_json(node.symbol, regexes)]]
         if isinstance(node, NonTerminalNode):
             if node.symbol in stack or node.symbol not in grammar.rules:
                 raise NotLinear()
@@ -725,6 +728,10 @@ def handle(case: dict) -> dict:
         members = []
     else:
         words, members = gen_words(grammar, kind, rng, case.get("n_words", 3), case.get("max_len", 8))
+    for u in case.get("extra_words") or []:      # inputs the fuzzer cannot produce (non-members, wide characters)
+        w = from_units(u, kind)
+        if w not in words:
+            words.append(w)
     alts = linearize(grammar, regexes)
     oracle = Oracle(regexes.patterns, mode)
     rids = list(range(len(regexes.patterns)))
